@@ -35,7 +35,12 @@ def main():
         res = {}
         try:
             subprocess.run(["git", "-C", "/repo", "worktree", "add", "--detach", "-q", wt, "HEAD"], check=True)
-            subprocess.run(["git", "apply", os.path.join(d, "patch.diff")], cwd=wt, check=True)
+            ap = subprocess.run(["git", "apply", os.path.join(d, "patch.diff")], cwd=wt)
+            if ap.returncode != 0:
+                meta["recheck"] = {"applies": False, "note": "no longer applies to /repo HEAD (the lines it changes were rewritten by a later fix: commit)"}
+                json.dump(meta, open(os.path.join(d, "meta.json"), "w"), indent=1)
+                print("%s stale: does not apply to HEAD any more" % name, flush=True)
+                continue
             env = dict(ENV, VERIF_REPO=wt, VERIF_EVIDENCE_DIR=evd, VERIF_REPLAY_DIR=evd)
             for c in checks:
                 p = subprocess.run(["./check", c, "quick"], cwd="/verif", env=env, stdout=subprocess.PIPE, stderr=subprocess.STDOUT, timeout=3600)
